@@ -31,6 +31,10 @@ def run(ctx, rep, tier):
         shared.kappa_normalisation(rep, F, tag, 'C02.R3')
     from . import units_rules
     units_rules.c02(ctx, rep)
+    # the verdict is about the user's cone only if equilibration scales non-separable cones uniformly (C10.R4 re-run)
+    from . import c10, c04
+    for cfg in CONFIGS:
+        c10.rectification(c04._Ren(rep, 'C10.R4', 'C02.R8'), ctx.facts(cfg), '' if cfg == 'default' else '[%s]' % cfg)
     from . import primitives
     primitives.vector_primitives(rep, ctx.facts('default'), ctx.eff('default'), '', 'C02.R7')
 
